@@ -7,6 +7,7 @@ import AferoVerif.Engine.Contains
 import AferoVerif.Engine.Path
 import AferoVerif.Engine.MemFs
 import AferoVerif.Engine.RoFs
+import AferoVerif.Engine.CowFs
 open AferoVerif
 
 partial def loop {σ : Type} (h : IO.FS.Stream) (out : IO.FS.Stream) (step : σ → String → σ × String) (s : σ) : IO Unit := do
@@ -26,4 +27,5 @@ def main (args : List String) : IO UInt32 := do
   | ["path"] => loop stdin stdout Engine.Path.stepLine (); return 0
   | ["memfs"] => loop stdin stdout Engine.MemFs.stepLine MemFs.init; return 0
   | ["rofs"] => loop stdin stdout Engine.RoFs.stepLine {}; return 0
+  | ["cowfs"] => loop stdin stdout Engine.CowFs.stepLine {}; return 0
   | _ => IO.eprintln "usage: driver <engine>"; return 2
